@@ -24,7 +24,7 @@ def run(F, tier, res):
     res.assumptions += E.ASSUMPTIONS
     res.not_decided += ['path parsing (quotes, spaces, prefixes), labels, mode/binary annotations: value-level',
                         'that exactly one header is printed when file headers are not handled (raw file style): see known limitation F15b in DESIGN.md']
-    E.add_e1(res, R, {'DROP-HDR', 'HDR-TWICE'}, 'C14')
+    E.add_e1(res, R, {'DROP-HDR', 'HDR-TWICE', 'HDR-UNGUARDED'}, 'C14')
     header_writers = set()
     for p in F.fn_bodies:
         pass
@@ -114,6 +114,14 @@ def run(F, tier, res):
             good = True
             # (a) guarded by the differ edge (here, or at every call site of this function when it is a write-and-mark helper)
             guarded = site_ok(p, i)
+            if not guarded:
+                # the decision may be coded in a way the structural matcher does not read (an enum-returning classifier, ...): the
+                # abstract interpreter establishes the same fact semantically - at every entry of the composer `handled != current`
+                # holds on the path taken (rule HDR-UNGUARDED, all modes explored)
+                e1_unguarded = [v for m_, r_ in R.items() for v in r_['violations'] if v['rule'] == 'HDR-UNGUARDED']
+                composed = sum(r_['summary']['events'].get('HDR_COMPOSED', 0) for r_ in R.values())
+                if composed > 0 and not e1_unguarded:
+                    guarded = True
             if not guarded:
                 good = False
                 res.violate('PAIRING', 'fn=%s;guard' % p, 'the file header is composed and written without checking that it has not been written '
